@@ -85,6 +85,25 @@ theorem nopoll_never_read (c : Consts) (env : Env) (n : Nat) (σ : PollState) (h
     have : mm < (statics σ).length := hv
     simpa [traceOf, statics] using this
 
+/-- **poll_flags_mark.**  The flag the poll thread tests (`rfunc.poll`, as computed by the read wrapper of
+`HasAccessibles`, `Handler.__set_name__`, `CommonReadHandler.wrap` and `nopoll` — model `PollFlags.pollFlag`) is
+set exactly for the parameters that are not marked as not polled, for every way a class can declare a read function;
+hence the list of parameters the thread collects is the list the monitor allows (`Spec.C13.mayPoll`), and with
+`nopoll_never_read`: a parameter marked as not polled is never read by the poller. -/
+theorem poll_flags_mark (d : PollFlags.Decl) : PollFlags.pollFlag d = true ↔ ¬ MarkedNotPolled d := by
+  rcases d with ⟨k, i, o⟩
+  cases k <;> cases i <;> cases o <;> decide
+
+theorem polled_is_mayPoll (ds : List PollFlags.Decl) : ∀ i, PollFlags.polledIdx i ds = mayPoll i ds := by
+  induction ds with
+  | nil => intro i; rfl
+  | cons d ds ih =>
+    intro i
+    simp only [PollFlags.polledIdx, mayPoll, ih]
+    by_cases h : MarkedNotPolled d
+    · rw [if_pos h, if_neg (by rw [poll_flags_mark]; exact fun hn => hn h)]
+    · rw [if_neg h, if_pos ((poll_flags_mark d).2 h)]
+
 /-! ## interval changes -/
 
 /-- **interval_change_next_wakeup (1).**  `setFastPoll` on a polled module installs the new interval and sets the
@@ -476,6 +495,14 @@ example : ∃ m', ([(5, Ext.setFastPoll 0 true 2), (6, .updateInterval 0 7), (7,
 
 example : (ModInfo.intervals ⟨true, 40, [0, 1], 10, [.setFast 5 true 2, .setInterval 6 7, .setFast 8 false 3]⟩) =
     [(0, 10), (5, 2), (6, 2), (8, 7)] := by decide
+
+/-- `poll_flags_mark` / `polled_is_mayPoll` on a class with a plain read function, a `@nopoll` one, a parameter
+without read function, a read handler with two keys, a common handler with two keys, and a `nopoll`ed common handler:
+positions 0, 3, 4, 5 are polled -/
+example : PollFlags.polledIdx 0 [⟨.plain, false, false⟩, ⟨.plain, true, false⟩, ⟨.none, false, false⟩,
+      ⟨.handler, false, false⟩, ⟨.handler, false, false⟩, ⟨.commonFirst, false, false⟩, ⟨.commonRest, false, false⟩,
+      ⟨.commonFirst, false, true⟩, ⟨.commonRest, false, true⟩] = [0, 3, 4, 5] ∧
+    MarkedNotPolled ⟨.commonFirst, false, true⟩ ∧ ¬ MarkedNotPolled ⟨.handler, false, false⟩ := by decide
 
 /-- the generated limits exclude `slowinterval = 0` (hypothesis of the refresh bound) -/
 example : 0 < Generated.C13.slowMin := by decide
